@@ -13,6 +13,10 @@ use std::fmt;
 #[path = "tests/messages_tests.rs"]
 pub mod messages_tests;
 
+#[cfg(all(test, feature = "hotstuff_verif"))]
+#[path = "/verif/replay/consensus_messages.rs"]
+mod verif_replay;
+
 #[derive(Serialize, Deserialize, Default, Clone)]
 pub struct Block {
     pub qc: QC,
